@@ -91,7 +91,28 @@ def gen_scenario(rng, parallel=False, small=False):
         sc['flags'] = ['--setup-only']
     if parallel:
         sc['cpu'] = rng.choice([5, 5, 8, 3])
+    if not sc['flags'] and rng.random() < 0.3:
+        add_prior(rng, sc)
     return sc
+
+
+def add_prior(rng, sc):
+    """an earlier session on the same data file: some runs recorded partly (their benchmark
+    failed after n invocations), some completely, some not at all (filtered out)"""
+    keys = [(e['name'], s['name'], b) for (e, s, b) in all_pairs(sc)]
+    cut = {}
+    for k in keys:
+        inv = find(sc['suites'], k[1])['inv']
+        r = rng.random()
+        if r < 0.4 and inv > 1:
+            cut['|'.join(k)] = rng.randint(1, inv - 1)
+        elif r < 0.5:
+            cut['|'.join(k)] = 0
+    flt = []
+    if rng.random() < 0.4:
+        k = rng.choice(keys)
+        flt = ['s:%s:%s' % (k[1], k[2])] if rng.random() < 0.6 else ['e:%s' % k[0]]
+    sc['prior'] = {'fail_after': cut, 'filter': flt}
 
 
 def find(lst, name):
@@ -182,6 +203,22 @@ def run_impl(ck, sc, idx):
             return 'oserr' if cwd in missing else 'ok'
         return table.get((script, cwd), 'ok')
 
+    prior = sc.get('prior')
+    if prior:
+        # an earlier session on the same data file: all builds succeed; the benchmark of
+        # run k fails from its (n+1)-th invocation on, so the run is recorded incompletely
+        counts = {}
+        cut = {tuple(k.split('|')): n for k, n in prior.get('fail_after', {}).items()}
+
+        def bench_rc(rec):
+            k = bench_key(rec['args'])
+            counts[k] = counts.get(k, 0) + 1
+            return 1 if k in cut and counts[k] > cut[k] else 0
+        b1 = drive_builds.run_build_session(wd, conf, list(prior.get('filter', [])), lambda s, c: 'ok',
+                                            cpu_count=1, bench_rc=bench_rc)
+        if b1.res.crash:
+            raise lib.InfraError('prior session crashed: %r' % (b1.res.crash,))
+        ck.impl_traces += 1
     picks = sc.get('picks')
     if picks is not None:
         it = iter(list(picks))
@@ -228,7 +265,7 @@ def canon_events(wd, bs, order):
     return out
 
 
-def model_request(sc, wd, order, repaired=True, picks=None):
+def model_request(sc, wd, order, repaired=True, picks=None, done0=None):
     setup_only = '--setup-only' in sc['flags']
     return {
         'op': 'c13.session', 'cwd': wd, 'home': os.path.expanduser('~'),
@@ -237,7 +274,7 @@ def model_request(sc, wd, order, repaired=True, picks=None):
         'suites': [{'name': s['name'], 'location': s['location'], 'build': s['build'],
                     'env': None if s['env'] is None else env_list(s['env'])} for s in sc['suites']],
         'runs': [{'exec': k[0], 'suite': k[1], 'inv': 1 if setup_only else find(sc['suites'], k[1])['inv'],
-                  'excl': bool(find(sc['suites'], k[1])['excl'])} for k in order],
+                  'excl': bool(find(sc['suites'], k[1])['excl']), 'done0': (done0 or {}).get(k, 0)} for k in order],
         'results': [{'script': r['script'], 'dir': resolve(wd, r['dir']), 'res': r['res']} for r in sc['results']],
         'do_builds': '-B' not in sc['flags'], 'repaired': repaired, 'locked': repaired,
         'sched': sc['sched'], 'choices': sc['choices'], 'cpu': sc['cpu'], 'picks': picks or []}
@@ -341,7 +378,8 @@ def oracle(ck, sc, wd, bs, order, evs, inp):
         for k in order:
             if all(results.get(b, 'ok') == 'ok' for b in need[k]):
                 want = 1 if setup_only else find(sc['suites'], k[1])['inv']
-                if nstarts.get(k, 0) != want or bs.status.get(k, {}).get('is_failed', True):
+                want = max(0, want - bs.done0.get(k, 0))
+                if nstarts.get(k, 0) != want or (want > 0 and bs.status.get(k, {}).get('is_failed', True)):
                     ck.oracle_fail('independent_proceeds', inp,
                                    {'run': k, 'starts': nstarts.get(k, 0), 'expected': want, 'status': bs.status.get(k)},
                                    signature={'clause': 'independent_proceeds', 'scheduler': mode})
@@ -378,7 +416,7 @@ def check_batch(ck, scenarios, base_idx=0, search=True):
         evs = canon_events(wd, bs, order)
         obs.append((sc, wd, bs, order, evs))
         ops.append(model_request(sc, wd, order, repaired=os.environ.get('VERIF_C13_VARIANT') != 'pinned',
-                                 picks=bs.picks))
+                                 picks=bs.picks, done0=bs.done0))
         if '--setup-only' in sc['flags']:
             req = model_request(sc, wd, bs.all_runs or [])
             req['op'] = 'c13.setup'
@@ -389,6 +427,10 @@ def check_batch(ck, scenarios, base_idx=0, search=True):
         inp['picks'] = bs.picks if bs.threads else sc.get('picks')
         parallel = bs.threads > 0
         ck.count('sched:' + ('parallel/' if parallel else '') + sc['sched'])
+        if sc.get('prior'):
+            ck.count('resumed-session')
+            ck.count('resumed:runs-partly-recorded', sum(1 for k in (order or []) if 0 < bs.done0.get(k, 0) < find(sc['suites'], k[1])['inv']))
+            ck.count('resumed:runs-complete', sum(1 for k in (order or []) if bs.done0.get(k, 0) >= find(sc['suites'], k[1])['inv']))
         for f in sc['flags']:
             ck.count('flag:' + f)
         for kd in bs.pick_kinds:
@@ -407,7 +449,7 @@ def check_batch(ck, scenarios, base_idx=0, search=True):
         ck.count('distinct-builds:%d' % shared)
         for r in sc['results']:
             ck.count('result:' + r['res'])
-        ck.case(nontrivial_key=json.dumps([make_config(sc), sc['results'], sc['flags'], sc['sched'], inp['picks']],
+        ck.case(nontrivial_key=json.dumps([make_config(sc), sc['results'], sc['flags'], sc['sched'], inp['picks'], sc.get('prior')],
                                           sort_keys=True) if shared else None,
                 sample={'config': make_config(sc), 'results': sc['results'], 'events': evs[:8]})
         bad = oracle(ck, sc, wd, bs, order, evs, inp)
@@ -417,7 +459,8 @@ def check_batch(ck, scenarios, base_idx=0, search=True):
                     'exit': bs.res.status()}
         m_evs = canon_model_events(ans['events'])
         m_status = [[r['failed'], r['completed']] for r in ans['runs']]
-        m_exit = 'failed' if any(r['failed'] for r in ans['runs']) else 'ok'
+        # executor.py:672-676: the session is successful iff every run has all its invocations
+        m_exit = 'failed' if any(r['completed'] < r['inv'] for r in ans['runs']) else 'ok'
         model_obs = {'events': m_evs, 'status': m_status, 'exit': m_exit}
         dis = impl_obs != model_obs
         if parallel and not dis:
@@ -519,6 +562,23 @@ def pattern_scenarios():
                     else:
                         sc['results'][i]['res'] = r
                 out.append(sc)
+        # resumed sessions: (a) every run partly recorded, (b) the first benchmark complete and
+        # the others new, (c) a mix
+        keys = [(e['name'], s['name'], b) for (e, s, b) in all_pairs(base)]
+        priors = [{'fail_after': {'|'.join(k): 1 for k in keys}, 'filter': []},
+                  {'fail_after': {}, 'filter': ['s:%s:%s' % (keys[0][1], keys[0][2])]},
+                  {'fail_after': {'|'.join(k): i % 2 for i, k in enumerate(keys)}, 'filter': []}]
+        for pi, prior in enumerate(priors):
+            for oc in ([], [(0, 'fail')] if builds else []):
+                sc = json.loads(json.dumps(base))
+                for s_ in sc['suites']:
+                    s_['inv'] = max(2, s_['inv'])
+                sc['sched'] = ('batch', 'round-robin', 'random')[pi]
+                sc['prior'] = prior
+                sc['results'] = [{'script': b[0], 'dir': b[1], 'res': 'ok'} for b in builds]
+                for (i, r) in oc:
+                    sc['results'][i]['res'] = r
+                out.append(sc)
         for flags in (['-B'], ['--setup-only'], ['--setup-only', '-B']):
             sc = json.loads(json.dumps(base))
             sc['sched'] = 'batch'
@@ -568,7 +628,7 @@ def run(ck):
     check_batch(ck, corpus, base_idx=0)
     pats = pattern_scenarios()
     if quick:
-        pats = [p for i, p in enumerate(pats) if i % 2 == ck.seed % 2 or p['flags']]
+        pats = [p for i, p in enumerate(pats) if i % 2 == ck.seed % 2 or p['flags'] or p.get('prior')]
     idx = 1000
     for i in range(0, len(pats), 60):
         check_batch(ck, pats[i:i + 60], base_idx=idx + i)
